@@ -156,6 +156,21 @@ def check_criteria(case):
     b = (T._test_criterion_node_value(fresh), T._test_criterion_node_impurity(fresh))
     require(abs(a[0] - b[0]) <= tol and abs(a[1] - b[1]) <= tol, "stale-state", "re-used criterion %r, fresh criterion %r on [%d,%d)" % (a, b, s, e),
             dict(facts, start=s, end=e))
+    # ... also when the SAME range is initialised again with other targets and weights (nothing kept from the earlier initialisation
+    # may be keyed by the range alone)
+    y2 = np.ascontiguousarray((y[::-1] * 0.5 + 1.25).reshape(n, 1))
+    w2 = w if kind == "linear" else np.ascontiguousarray(w[::-1].copy())
+    W2 = float(w2.sum())
+    fresh2 = _make(kind, n, X)
+    T._test_criterion_init(fresh2, y2, w2, W2, samples, s, e)
+    T._test_criterion_init(crit, y2, w2, W2, samples, s, e)
+    for pos in sorted(set([s, (s + e) // 2, e])):
+        T._test_criterion_update(crit, pos)
+        T._test_criterion_update(fresh2, pos)
+        a = (T._test_criterion_node_value(crit), T._test_criterion_node_impurity(crit)) + tuple(T._test_criterion_node_impurity_children(crit))
+        b = (T._test_criterion_node_value(fresh2), T._test_criterion_node_impurity(fresh2)) + tuple(T._test_criterion_node_impurity_children(fresh2))
+        require(all(abs(u - v) <= tol for u, v in zip(a, b)), "stale-state:same-range-other-targets",
+                "re-used criterion %r, fresh criterion %r on [%d,%d,%d) after the targets changed" % (a, b, s, pos, e), dict(facts, start=s, end=e, pos=pos))
     ident = list(case["order"]) == list(range(n))
     return Outcome([kind, "identity-order" if ident else "permuted", "candidates" if case["candidates"] else "direct",
                     "n=1" if n == 1 else ("n<=4" if n <= 4 else ("n>4" if n <= 128 else "n>128")), "cond-skipped" if skipped else "all-compared",
